@@ -28,6 +28,7 @@ PROPS["C13"] = {
             "pkg": "internal/strobe", "configs": ["default", "purego"],
             "tests": {
                 "TestC13StrobeOps": T(60000, 1000000),
+                "TestC13ParStrobeOps": T(2000, 60000), "TestC13ParKeccak": T(2000, 60000),
                 "TestC13Keccak": T(60000, 2000000),
                 "TestC13KeccakBits": LIST(),
             },
@@ -47,6 +48,7 @@ PROPS["C13"] = {
             "pkg": "internal/strobe", "configs": ["force32bit", "386"],
             "tests": {
                 "TestC13StrobeOps": T(12000, 100000),
+                "TestC13ParStrobeOps": T(600, 10000), "TestC13ParKeccak": T(600, 10000),
                 "TestC13Keccak": T(12000, 200000),
                 "TestC13KeccakBits": LIST(),
             },
